@@ -829,6 +829,110 @@ def duplicate_name_cases():
 
 
 # ---------------- section lookup / config file ----------------
+# ---------------- the remote route (remote_schema_url, loopback endpoint) ----------------
+REMOTE_ROUTES = [  # (route, expect, names)
+    ("ok", "valid", []), ("emptyerrors", "valid", []), ("created201", "valid", []),
+    ("status500", "invalid", ["500"]), ("status404", "invalid", ["404"]), ("status301", "invalid", ["301"]),
+    ("status400", "invalid", ["400"]),
+    ("notjson", "invalid", ["json"]), ("list", "invalid", ["format"]), ("nodata", "invalid", ["format"]),
+    ("errors", "invalid", ["boom"]), ("datanull", "invalid", ["data"]), ("datalist", "invalid", ["data"]),
+    ("dataempty", "invalid", ["introspection"]), ("schemanull", "invalid", ["introspection"]),
+    ("notypes", "invalid", ["introspection"]), ("badtypes", "invalid", ["introspection"]),
+]
+BAD_URLS = [("noscheme", "not-a-url"), ("noscheme", "ftp://127.0.0.1/graphql"), ("noscheme", "localhost/graphql"),
+            ("invalid", "http://[::1/graphql")]
+
+
+def remote_cases():
+    out = []
+    for which in ("client", "schema"):
+        for route, expect, names in REMOTE_ROUTES:
+            for pre in ((False, True) if expect == "invalid" else (False,)):
+                c = base_case() if which == "client" else schema_base()
+                del c["files"]["schema.graphql"]
+                s = sec(c)
+                s.pop("schema_path")
+                s["remote_schema_url"] = "{URL}"
+                s["remote_schema_headers"] = {"X-Test": "1"}
+                c["remote"] = {"route": route, "sdl": SCHEMA}
+                if pre:
+                    (o_preexisting(c) if which == "client" else s_pre(c))
+                c.update({"id": f"remote/{route}/{which}" + ("+pre" if pre else ""), "expect": expect, "names": names,
+                          "cls": None, "group": "remote", "kind": route, "opts": ["remote"]})
+                out.append(c)
+        for ucls, url in BAD_URLS:
+            c = base_case() if which == "client" else schema_base()
+            del c["files"]["schema.graphql"]
+            s = sec(c)
+            s.pop("schema_path")
+            s["remote_schema_url"] = url
+            c["remote"] = {"urlclass": ucls}
+            c.update({"id": f"remote/badurl-{url}/{which}", "expect": "invalid", "names": [url], "cls": None,
+                      "group": "remote", "kind": "badurl", "opts": ["remote"]})
+            out.append(c)
+        # both sources: schema_path is prioritised, whatever the endpoint would answer; nothing may be sent
+        for route in ("status500", "notjson", "dataempty", "ok"):
+            c = base_case() if which == "client" else schema_base()
+            sec(c)["remote_schema_url"] = "{URL}"
+            c["remote"] = {"route": route, "sdl": "type Query { other: Int }"}
+            c.update({"id": f"remote/both-sources-{route}/{which}", "expect": "valid", "names": [], "cls": None,
+                      "group": "remote", "kind": "both", "opts": ["remote", "both"]})
+            out.append(c)
+        # both sources, broken local schema: the local error is reported, the endpoint is not asked
+        c = base_case() if which == "client" else schema_base()
+        c["files"]["schema.graphql"] = "type Query {"
+        sec(c)["remote_schema_url"] = "{URL}"
+        c["remote"] = {"route": "ok", "sdl": SCHEMA}
+        c.update({"id": f"remote/both-sources-local-syntax/{which}", "expect": "invalid", "names": ["schema.graphql"],
+                  "cls": None, "group": "remote", "kind": "both", "opts": ["remote", "both"]})
+        out.append(c)
+    # remote schema + invalid operation / header from the environment
+    c = base_case()
+    del c["files"]["schema.graphql"]
+    sec(c).pop("schema_path")
+    sec(c)["remote_schema_url"] = "{URL}"
+    c["files"]["queries.graphql"] = "query A { nope }\n"
+    c["remote"] = {"route": "ok", "sdl": SCHEMA}
+    c.update({"id": "remote/ok-invalid-operation", "expect": "invalid", "names": ["nope"], "cls": None, "group": "remote",
+              "kind": "op", "opts": ["remote"]})
+    out.append(c)
+    c = base_case()
+    del c["files"]["schema.graphql"]
+    sec(c).pop("schema_path")
+    sec(c)["remote_schema_url"] = "{URL}"
+    sec(c)["remote_schema_headers"] = {"Authorization": "$C17_NOPE"}
+    c["envvars"]["C17_NOPE"] = None
+    c["remote"] = {"route": "ok", "sdl": SCHEMA}
+    c.update({"id": "remote/header-var-missing", "expect": "invalid", "names": ["C17_NOPE"], "cls": None, "group": "remote",
+              "kind": "header", "opts": ["remote"], "constraint": "headers-resolvable"})
+    out.append(c)
+    return out
+
+
+# ---------------- malformed stream: known keys with values of the wrong TOML kind ----------------
+WRONG = {"str": [5, True, ["a"], {"k": "v"}, 1.5], "bool": ["yes", 0, []], "strlist": ["abc", 7, {"a": 1}, [1, 2]],
+         "strdict": ["x", 3, ["a"], {"A": 5}], "comments": [5, ["stable"], 1.5], "scalars": ["x", 3, {"X": "str"}, {"X": {"type": 5}}]}
+
+
+def malformed_cases(field_kinds):
+    """One case per (field, wrong-kind value).  Outside the typed scope of the model (it answers Ill); the
+    half of the property that applies to ANY failure is still enforced: nothing written before failing,
+    configuration not mutated.  The exception classes are reported in the evidence."""
+    out = []
+    client_only = None
+    for name, kind in field_kinds:
+        which = "schema" if name in ("target_file_path", "schema_variable_name", "type_map_variable_name") else "client"
+        for i, val in enumerate(WRONG[kind]):
+            c = base_case() if which == "client" else schema_base()
+            sec(c)[name] = val
+            if i % 2:
+                (o_preexisting(c) if which == "client" else s_pre(c))
+            c.update({"id": f"malformed/{name}/{i}", "expect": "malformed", "names": [], "cls": None,
+                      "group": "malformed", "kind": f"{name}:{kind}", "opts": []})
+            out.append(c)
+    return out
+
+
 def section_cases():
     out = []
     c = base_case()
